@@ -1,9 +1,50 @@
-import Fpdec.Lemmas.Dom
+import Fpdec.Lemmas.IntoFloat
+import Fpdec.Lemmas.IntoFloatNearest
 import Fpdec.Props.C12_Sites
 
-/-! # C12 — property theorems (under construction: see DESIGN.md section 6) -/
+/-!
+# C12 — Decimal to f64/f32 conversion is correctly rounded
+
+* `into_float_spec`: for every Decimal of the domain, both formats and every profile the model of `f64::from(d)` / `f32::from(d)`
+  returns the bit pattern `Spec.intoFloat` = sign bit + `Spec.rneBits |a| 10^p` (exponent from the definition
+  `2^e ≤ v < 2^(e+1)`, significand by half-even rounding of the exact quotient, carry into the exponent); zero maps to `+0.0`.
+* `rne_is_nearest`: that pattern decodes to a float that is nearest to the exact decimal value among ALL bit patterns of the
+  format, with an even significand on ties — the spec itself is justified, not only matched.
+Assumed (Rust reference, exercised by the correspondence run): `i128 as f64` / `as f32` rounds to nearest-even — the integer-valued
+branch (`n_frac_digits == 0` or zero coefficient) is modelled by the spec function itself.
+-/
 
 namespace Fpdec.Props.C12
 open Fpdec Fpdec.Model
+
+theorem from_decimal_spec (prof : Profile) (f : Spec.FloatFmt) (hf : f = Spec.FloatFmt.f64 ∨ f = Spec.FloatFmt.f32)
+    (d : Dec) (hd : Dom d) (hp : 0 < d.nfrac) (ha : d.coeff ≠ 0) :
+    fromDecimal prof f d = .ok (Spec.intoFloat f d.coeff d.nfrac) :=
+  fromDecimal_spec prof f hf d hd hp ha
+
+theorem into_float_spec (prof : Profile) (f : Spec.FloatFmt) (hf : f = Spec.FloatFmt.f64 ∨ f = Spec.FloatFmt.f32)
+    (d : Dec) (hd : Dom d) :
+    intoFloat prof f d = .ok (Spec.intoFloat f d.coeff d.nfrac) :=
+  intoFloat_spec prof f hf d hd
+
+/-- the spec pattern is a finite normal float, nearest to the decimal value among all bit patterns `b` of the format
+    (distances compared by cross-multiplication), and has an even last bit whenever another value is equally near -/
+theorem rne_is_nearest (f : Spec.FloatFmt) (hf : f = Spec.FloatFmt.f64 ∨ f = Spec.FloatFmt.f32)
+    (a : Int) (p : Nat) (ha : a ≠ 0) (ha0 : I128_MIN < a) (ha1 : a ≤ I128_MAX) (hp : p ≤ 18) :
+    2 ^ f.fracBits ≤ Spec.rneBits f a.natAbs (10 ^ p) ∧
+    Spec.rneBits f a.natAbs (10 ^ p) < (2 ^ f.expBits - 1) * 2 ^ f.fracBits ∧
+    ∀ b : Nat,
+      let r := Spec.decodeBits f (Spec.rneBits f a.natAbs (10 ^ p))
+      let y := Spec.decodeBits f b
+      ((a.natAbs * r.2 : Nat) - (r.1 * 10 ^ p : Nat) : Int).natAbs * y.2
+          ≤ ((a.natAbs * y.2 : Nat) - (y.1 * 10 ^ p : Nat) : Int).natAbs * r.2 ∧
+      (((a.natAbs * r.2 : Nat) - (r.1 * 10 ^ p : Nat) : Int).natAbs * y.2
+          = ((a.natAbs * y.2 : Nat) - (y.1 * 10 ^ p : Nat) : Int).natAbs * r.2 →
+        y.1 * r.2 ≠ r.1 * y.2 → Spec.rneBits f a.natAbs (10 ^ p) % 2 = 0) :=
+  rneBits_nearest_dom f hf a p ha ha0 ha1 hp
+
+/-! ### non-vacuity -/
+example : intoFloat Profile.dev .f64 ⟨1, 1⟩ = .ok 4591870180066957722 := by decide   -- 0.1
+example : intoFloat Profile.release .f32 ⟨99999999, 8⟩ = .ok 1065353216 := by decide   -- 0.99999999 → 1.0f32 (carry)
 
 end Fpdec.Props.C12
